@@ -461,12 +461,17 @@ def cm3_case(pictyp, line_specs, nlit_extra=0, lines_byte=None):
     if not (pictyp & 1):
         stream_cells += [0] * 243
     line_specs = list(line_specs)
-    nlines = len(line_specs)
+    # an entry ("page", None) starts the second page of a two-page picture: the lines before it are page 1
+    page_at = [i for i, (c, p_) in enumerate(line_specs) if c == "page"]
+    nlines = page_at[0] if page_at else len(line_specs)
     stream_cells.append(nlines if lines_byte is None else lines_byte)
     linbuf = [bv(0)] * 160
     want_bytes = []
     lits_all = []
     for ln, (contr, pat) in enumerate(line_specs):
+        if contr == "page":
+            stream_cells.append(len(line_specs) - ln - 1)  # lines byte of page 2; the line buffer carries over
+            continue
         stream_cells.append(contr)
         if contr is not None and contr >= 128:
             lits, pre_l = cells(160, f"l{ln}_")
@@ -594,7 +599,18 @@ def vef_case(type_byte, ndata, squashed=None, first_byte=0):
         class FakePng:
             Writer = pysym.Intrinsic(make_writer)
 
-        return dict(argv=["in.vef", "out.png"]), sink, {"in.vef": stream}, {"holder": holder, "intr": {"open": pysym.Intrinsic(fake_open), "png": FakePng, "Image": FakeImage}}
+        class RecImageFile(FakeImageFile):
+            def resize(self, size):
+                holder["resized"] = tuple(size)
+                return self
+
+        class RecImage:
+            @staticmethod
+            def open(name):
+                holder["image_opened"] = True
+                return RecImageFile()
+
+        return dict(argv=["in.vef", "out.png"]), sink, {"in.vef": stream}, {"holder": holder, "intr": {"open": pysym.Intrinsic(fake_open), "png": FakePng, "Image": RecImage}}
 
     node, case.src = pysym.func_ast(mod.start)
 
@@ -618,7 +634,7 @@ def vef_case(type_byte, ndata, squashed=None, first_byte=0):
     results = D.explore(make_run, pre, unwind=140, max_paths=300)
     for r in results:
         w = r["extra"]["holder"].get("writer")
-        r.update(writer=w, pal=pal, data=data, body=body)
+        r.update(writer=w, pal=pal, data=data, body=body, resized=r["extra"]["holder"].get("resized"))
         case.paths.append(r)
 
     def replay(model):
